@@ -21,11 +21,13 @@ func checkC14(w *Worker) {
 		dev, maxItems, maxRec = 1, 3, 2 // (3 days x 3 items does not finish within the deadline)
 	}
 	dates := []time.Time{time.Date(2021, 1, 24, 0, 0, 0, 0, time.UTC), time.Date(2021, 1, 25, 0, 0, 0, 0, time.UTC), time.Date(2021, 1, 24, 0, 0, 0, 0, time.UTC)}
+	fmts, nPeriods := c14Formats, 3
 	body := func(maxRec int, names []int) func(x *Exec) {
+		fmts, nPeriods := fmts, nPeriods
 		return func(x *Exec) {
-			fi := x.Choose(len(c14Formats), "config:date-format")
-			period := x.Choose(3, "config:period") // none, one day, two different bounds
-			format := c14Formats[fi]
+			fi := x.Choose(len(fmts), "config:date-format")
+			period := x.Choose(nPeriods, "config:period") // none, one day, two different bounds, end only, begin only
+			format := fmts[fi]
 			nrec := 0
 			if maxRec > 0 {
 				nrec = 1 + x.Choose(maxRec, "input:records")
@@ -78,7 +80,7 @@ func checkC14(w *Worker) {
 			global := []string{"--date-format", format}
 			env := map[string]string{}
 			extraFiles := map[string]string{}
-			if fi == 0 && x.Choose(2, "config:format-flag-absent") == 1 {
+			if format == "2006/01/02" && x.Choose(2, "config:format-flag-absent") == 1 {
 				global = nil
 			}
 			// where the date format comes from: the flag, HR_DATE_FORMAT, or the configuration file (a deviation of class "src")
@@ -107,6 +109,25 @@ func checkC14(w *Worker) {
 				selected = nil
 				for _, r := range f {
 					if r.Header == d0 || r.Header == d1 {
+						selected = append(selected, r)
+					}
+				}
+			}
+			if period == 3 || period == 4 {
+				// open periods: the order of the days is the order of their headings read under the format
+				bound, _ := time.Parse(format, dates[period-3].Format(format))
+				if period == 3 {
+					global = append(global, "-e", dates[0].Format(format))
+				} else {
+					global = append(global, "-b", dates[1].Format(format))
+				}
+				selected = nil
+				for _, r := range f {
+					t, err := time.Parse(format, r.Header)
+					if err != nil {
+						hfail("C14: heading %q does not parse under %q", r.Header, format)
+					}
+					if (period == 3 && !t.After(bound)) || (period == 4 && !t.Before(bound)) {
 						selected = append(selected, r)
 					}
 				}
@@ -209,6 +230,11 @@ func checkC14(w *Worker) {
 	w.Explore("large-log", ExploreOpts{ShardDepth: 2, Budgets: map[string]int{"layout": 0, "src": 0}}, body(0, []int{0, 3, 5, 13, 20}))
 	w.Explore("names-x-formats-default-layout", ExploreOpts{ShardDepth: 6, Budgets: map[string]int{"layout": 0, "src": 0}}, body(maxRec, all))
 	w.Explore(fmt.Sprintf("layout-dev%d", dev), ExploreOpts{ShardDepth: 6, Budgets: map[string]int{"layout": dev, "src": 0}}, body(1, []int{2, 4}))
+	// formats without a year and with a two-digit year (headings parse to year 0 / to 19xx-20xx), and periods open at one end
+	fmts, nPeriods = []string{"01/02", "Jan 2", "06.01.02", "2006/01/02", "2.1.2006"}, 5
+	w.Explore("yearless-formats-x-open-periods", ExploreOpts{ShardDepth: 6, Budgets: map[string]int{"layout": 0, "src": 0}}, body(maxRec, []int{2, 4}))
+	w.Explore("large-log-yearless-formats-x-open-periods", ExploreOpts{ShardDepth: 2, Budgets: map[string]int{"layout": 0, "src": 0}}, body(0, []int{3}))
+	fmts, nPeriods = c14Formats, 3
 	w.Explore("format-from-flag-env-config", ExploreOpts{ShardDepth: 6, Budgets: map[string]int{"layout": 0}}, body(1, []int{2}))
 }
 
